@@ -115,7 +115,7 @@ def showSMsg : SMsg → String
   | .callReply => "reply"
 
 def showErr : FrameErr → String
-  | .eof => "eof" | .tooLarge => "toolarge" | .unalloc => "unalloc" | .undecodable => "undecodable"
+  | .eof => "eof" | .tooLarge => "toolarge" | .unalloc => "unalloc" | .undecodable => "undecodable" | .io => "io"
 
 def showRes : FrameRes Bytes → String
   | .ok m => s!"ok:{hex m}"
@@ -128,6 +128,7 @@ def parseRes? (s : String) : Option (FrameRes Bytes) :=
     | "err:toolarge" => some (.err .tooLarge)
     | "err:unalloc" => some (.err .unalloc)
     | "err:undecodable" => some (.err .undecodable)
+    | "err:io" => some (.err .io)
     | _ => none
 
 def showObs (o : List (FrameRes Bytes) × Nat) : String :=
@@ -305,19 +306,27 @@ def step (st : St) (op impl : String) : St × StepOut :=
       ({ st with frames := st.frames ++ [p], framesImpl := st.framesImpl ++ ((unhex? impl).getD []) },
        { model := hex f, nontrivial := true })
     | none => (st, { model := "bad-op" })
-  | ["frames", fmax, fchunks, fstream, fdec] =>
+  | "frames" :: fmax :: fchunks :: fstream :: fdec :: rest =>
+    -- `io=1`: the transport ends with an I/O error instead of EOF (`Codec.readFramesIo`)
+    let io := rest == ["io=1"]
+    -- `tcp=1`: the fragmented run went over a real TCP connection (`ActorReadHalf::Regular`); the
+    -- kernel chose the fragmentation, so only outcomes and consumed bytes are predicted
+    let tcp := rest == ["tcp=1"]
+    if !(rest.isEmpty || io || tcp) then (st, { model := "bad-op" }) else
     match (field? fmax "max").bind (·.toNat?), (field? fchunks "chunks").bind natList?,
           (field? fstream "stream").bind unhex?, (field? fdec "dec").bind parseDecTable? with
     | some max, some sizes, some stream, some tbl =>
       let dec := decOf tbl
-      let whole := framesObs dec max [stream]
+      let whole0 := framesObs dec max [stream]
+      let whole := (whole0.1.map (ioEnd io), whole0.2)
       let pieces := splitBy stream sizes
-      let r := readFrames dec max pieces
+      let r := readFramesIo dec max pieces io
       let split := (r.1, streamLen pieces - streamLen r.2.1)
       let tr := r.2.2
       let maxReq := Codec.maxReq tr
       let sumReq := tr.foldl (fun a e => a + e.req) 0
-      let model := s!"whole={showObs whole} split={showObs split} maxreq={maxReq} reads={tr.length} sumreq={sumReq} alloc=ok"
+      let model := if tcp then s!"whole={showObs whole} split={showObs whole} maxreq=0 reads=0 sumreq=0 alloc=ok"
+        else s!"whole={showObs whole} split={showObs split} maxreq={maxReq} reads={tr.length} sumreq={sumReq} alloc=ok"
       -- oracle on the implementation's observation
       let orc := match words impl with
         | [w, s, mr, _, _, al] =>
@@ -331,7 +340,10 @@ def step (st : St) (op impl : String) : St × StepOut :=
                 (if so.1 == st.frames.map (fun p => match dec p with | some c => FrameRes.ok c | none => .err .undecodable) ++ [.err .eof]
                  then [] else ["frame-roundtrip"])
               else []
-            base ++ rt ++ (if al == "alloc=ok" then [] else ["frame-buffer-bounded"])
+            -- a transport error is reported as such (stop reason "frame_read_error"), never as a clean EOF
+            let ioc := if io && (so.1.getLast? == some (.err .eof) || wo.1.getLast? == some (.err .eof))
+              then ["frame-io-error-taken-for-eof"] else []
+            base ++ rt ++ ioc ++ (if al == "alloc=ok" then [] else ["frame-buffer-bounded"])
           | _, _, _ => ["frame-total"]
         | _ => ["frame-total"]
       ({ st with frames := [], framesImpl := [] },
@@ -370,7 +382,14 @@ def step (st : St) (op impl : String) : St × StepOut :=
         | "call" => .call tag args
         | _ => .callReply
       let d := deserialize (variants st) sm
-      (st, { model := showSeen d, oracle := actorOracle impl d.isSome, nontrivial := d.isNone })
+      -- `Codec.handleMessage`: the actor's state after this message
+      let a := handleMessage {} sm (decodedOf (variants st) sm)
+      let port := if kind == "call" then (if a.droppedPorts == 1 then " port=dropped" else " port=open") else ""
+      -- the caller of a call that is not a message of the actor must observe an absence, never a value
+      let orcPort := if kind == "call" && d.isNone && (impl.splitOn "port=value").length != 1
+        then ["undecodable-call-answered"] else []
+      (st, { model := showSeen (a.handled.head?) ++ port, oracle := actorOracle impl d.isSome ++ orcPort,
+             nontrivial := d.isNone })
     | none => (st, { model := "bad-op" })
   | ["actor", "num", kind, h] =>
     match unhex? h with
@@ -382,13 +401,11 @@ def step (st : St) (op impl : String) : St × StepOut :=
   | ["actor", "job", "cast", tag, h, m] =>
     match unhex? h, (if m == "none" then some none else (unhex? m).map some) with
     | some args, some mb =>
-      let d := match decodeMeta mb with
-        | none => none
-        | some jm =>
-          match decode (.uint 8) jm.key with
-          | some (.nat k) =>
-            (deserialize (variants st) (.cast tag args)).map (fun (t, vs) => (s!"job {k} {t}", vs))
-          | _ => none
+      -- `Codec.decodeJob`: metadata, key (`u64::from_bytes`), inner message
+      let d := (decodeJob (.uint 8) (variants st) (.cast tag args) mb).bind fun r =>
+        match r.1 with
+        | .nat k => some (s!"job {k} {r.2.2.1}", r.2.2.2)
+        | _ => none
       (st, { model := showSeen d, oracle := actorOracle impl, nontrivial := d.isNone })
     | _, _ => (st, { model := "bad-op" })
   | _ => (st, { model := "bad-op" })
